@@ -459,6 +459,29 @@ def convert_sequencing():
     return guarded("convert/statement-order", run)
 
 
+def empty_statements():
+    """an empty statement (`::`, `: :`) is nothing: every statement around it is executed, in order, on a line and in an IF arm"""
+    def run():
+        import re
+        from coco.b09.compiler import convert
+        res = []
+        cases = {'PRINT "A"::PRINT "B": :PRINT "C"': ["A", "B", "C"], 'IF Q=1 THEN PRINT "A"::PRINT "B" ELSE PRINT "C": :PRINT "D":::PRINT "E"': ["A", "B", "C", "D", "E"],
+                 'FOR I=1 TO 2::PRINT "A"::NEXT:PRINT "B"': ["A", "B"], '::PRINT "A"': ["A"], 'PRINT "A"::': ["A"], 'PRINT "A":: :: ::PRINT "B"': ["A", "B"], 'IF Q=1 THEN ::PRINT "A"': ["A"],
+                 'PRINT "A"::GOTO 10::PRINT "B"': ["A", "B"]}
+        for src, want in cases.items():
+            for kw in (dict(), dict(filter_unused_linenum=True, initialize_vars=True)):
+                try:
+                    text = convert("10 %s\n" % src, add_standard_prefix=False, **kw)
+                    got = re.findall(r'PRINT "(\w)"', text)
+                    closers = (text.count("NEXT"), text.count("GOTO 10"))
+                    want_closers = (src.count("NEXT"), src.count("GOTO 10"))
+                except Exception as e:  # noqa
+                    got, closers, want_closers = "%s: %s" % (type(e).__name__, str(e)[:60]), 0, 0
+                res.append(ob("empty-statements/%s%s" % (src, ",filter+init" if kw else ""), got == want and closers == want_closers, want, got if got != want else "NEXT/GOTO %s vs %s" % (closers, want_closers)))
+        return res
+    return guarded("empty-statements", run)
+
+
 def relation_spellings():
     """the relation that decides a branch is the relation the source spells: `=<` is <=, `=>` is >=, in every IF form, for numeric and
     string operands, whichever operand is on which side"""
@@ -493,4 +516,4 @@ def obligations():
     # a branch taken before a loop ran reads the loop variable's start value: the initialiser covers it (shared with C09)
     from tx.p_c05 import share
     from tx.p_c09 import initializer_positions
-    return share("start-values/", initializer_positions()) + relation_spellings() + next_patcher() + fornext_count() + if_semantics() + if_parse_forms() + condition_coercion() + nested_if_semantics() + independence_shared_with_c05() + jumps_land() + prog_sequencing() + convert_sequencing()
+    return share("start-values/", initializer_positions()) + relation_spellings() + empty_statements() + next_patcher() + fornext_count() + if_semantics() + if_parse_forms() + condition_coercion() + nested_if_semantics() + independence_shared_with_c05() + jumps_land() + prog_sequencing() + convert_sequencing()
